@@ -31,6 +31,8 @@ def nontrivial(ln):
         return i >= 0 and any(c in s[i + 3:] for c in b":/?[")
     if cmd == "uinto":
         return True
+    if cmd == "unew":
+        return b"://" in G.untok(t[-1])
     if cmd in ("ugetp", "ugetq"):
         segs = [G.untok(x) for x in t[1:]]
         return len(segs) >= 2 or any(not (chr(c).isalnum()) for s in segs for c in s)
@@ -178,6 +180,13 @@ def check_case(cx, ln, mo, co, spec):
                 cx.bad("coap_uri_into_optlist: options out of order, duplicated Uri-Host/Uri-Port, "
                        "or a dot segment emitted", ln, mo, co)
                 return
+    elif cmd == "unew":
+        want = G.ref_split(G.untok(t[2]), False, t[1])
+        got = "reject" if co == "rc=-1" else co.split(" clone=")[0]
+        if got != G.show_parts(want):
+            cx.bad("coap_new_uri differs from the URI grammar", ln, mo, co,
+                   "grammar: %s\n" % G.show_parts(want))
+            return
     elif cmd == "uspl":
         s = G.untok(t[3])
         want = G.ref_split(s, t[1] == "1", t[2])
@@ -278,7 +287,7 @@ def main(run):
     run.cov["leaf_sweep"] = {"cases": len(sweep), "exhaustive": True,
                              "also_exhaustive": "all 256 byte values through the escape tables; '%' + all "
                              "65536 byte pairs through coap_split_path and coap_path_into_optlist; port texts "
-                             "0..66000 through coap_split_uri; all 65536 ports x 6 schemes through "
+                             "0..66000 through coap_split_uri; all 65536 ports x 2 (quick) / 6 (thorough) schemes through "
                              "coap_uri_into_optlist; 20 scheme names x proxy flag x 6 tails",
                              "exhaustive_over": "all strings over 'a./%%2eE?#&:[' of length <= %d as "
                              "path and query (buffer 64), <= %d through the optlist functions and as "
@@ -299,7 +308,8 @@ def main(run):
             base_lines.append("upol 1 11 %s" % ("61" * k))
     # Uri-Port decision: every port x every scheme coap_split_uri accepts (finite leaf domain)
     if caps == "11111":
-        for sch in (b"coap", b"coaps", b"coap+tcp", b"coaps+tcp", b"coap+ws", b"coaps+ws"):
+        for sch in ((b"coap", b"coaps+ws") if quick else
+                    (b"coap", b"coaps", b"coap+tcp", b"coaps+tcp", b"coap+ws", b"coaps+ws")):
             pre = sch + b"://h:"
             for port in range(65536):
                 base_lines.append("uinto 1 - " + G.tok(pre + str(port).encode()))
@@ -347,7 +357,10 @@ def main(run):
         if i % 2 == 0:
             gen.append("uqol %d 15 %s" % (r.choice([0, 1, 2]), G.tok(s)))
     for i in range(n * 3 // 10):
-        gen.append("uspl %d %s %s" % (r.random() < 0.25, caps, G.tok(G.gen_uri(r))))
+        u = G.gen_uri(r)
+        gen.append("uspl %d %s %s" % (r.random() < 0.25, caps, G.tok(u)))
+        if i % 4 == 0:
+            gen.append("unew %s %s" % (caps, G.tok(u)))
     if caps == "11111":
         for i in range(n // 20):
             u = G.gen_uri(r)
